@@ -173,6 +173,46 @@ def _unambiguous(n, roles, m, parents, hh, ages):
     return True
 
 
+def random_structure(n, rng, max_hh=3):
+    """one random unambiguous structure with n persons (for the 'randomly beyond five' part)"""
+    ages = {"A": 40, "Y": 22, "C": 8}
+    rank = {"A": 2, "Y": 1, "C": 0}
+    ids = rng.sample(range(0, 4 * n), n)
+    for _ in range(200):
+        roles = tuple(sorted((rng.choice("AAYCC") for _ in range(n)), key=lambda r: -rank[r]))
+        grown = [r for r in range(n) if roles[r] in "AY"]
+        rng.shuffle(grown)
+        m = {}
+        for a, b in zip(grown[0::2], grown[1::2]):
+            if rng.random() < 0.6:
+                m[a], m[b] = b, a
+        hh = [rng.randrange(max_hh) for _ in range(n)]
+        for a, b in m.items():
+            hh[b] = hh[a]
+        parents = []
+        for r in range(n):
+            older = [q for q in range(n) if rank[roles[q]] > rank[roles[r]]]
+            if not older or rng.random() < 0.35:
+                parents.append((-1, -1))
+                continue
+            q = rng.choice(older)
+            if q in m and rng.random() < 0.6 and rank[roles[m[q]]] > rank[roles[r]]:
+                pair = (q, m[q])
+            else:
+                pair = (q, -1)
+            parents.append(pair if rng.random() < 0.5 else (pair[1], pair[0]))
+        if _unambiguous(n, roles, m, parents, hh, ages):
+            return {
+                "p_id": numpy.array(ids),
+                "hh_id": numpy.array([h * 3 + 1 for h in hh]),
+                "alter": numpy.array([ages[x] for x in roles]),
+                "p_id_einstandspartner": numpy.array([ids[m[r]] if r in m else -1 for r in range(n)]),
+                "p_id_elternteil_1": numpy.array([ids[p[0]] if p[0] >= 0 else -1 for p in parents]),
+                "p_id_elternteil_2": numpy.array([ids[p[1]] if p[1] >= 0 else -1 for p in parents]),
+            }
+    return None
+
+
 def permute(data, perm):
     return {k: v[list(perm)] for k, v in data.items()}
 
